@@ -131,8 +131,12 @@ func newTripleSpace(thorough bool) *tripleSpace {
 		sp.nmsg = 2
 	}
 	sp.repl = replacementStrings()
-	sp.names = []string{"variant", "keyscalar", "keytorsion", "keyenc", "nonce", "Rtorsion", "Renc", "msg", "Spert", "siglen", "keyrepl", "Rrepl"}
-	sp.sizes = []int{len(vSpace), len(sp.ka), 8, 4, len(sp.kr), 8, 4, sp.nmsg, len(spertNames), len(sigLens), 1 + len(sp.repl), 1 + len(sp.repl)}
+	// Rrel: the R bytes of the signature encode a point RELATED to the one the equation yields:
+	// 1 = (-x, y) (the negation), 2 = (x, -y) (negation + the order-2 point). Both must be rejected
+	// (a projective comparison that looks at one coordinate only would accept one of them);
+	// (-x, -y) differs by pure torsion and is legitimately accepted, so it is not a deviation.
+	sp.names = []string{"variant", "keyscalar", "keytorsion", "keyenc", "nonce", "Rtorsion", "Renc", "msg", "Spert", "siglen", "keyrepl", "Rrepl", "Rrel"}
+	sp.sizes = []int{len(vSpace), len(sp.ka), 8, 4, len(sp.kr), 8, 4, sp.nmsg, len(spertNames), len(sigLens), 1 + len(sp.repl), 1 + len(sp.repl), 3}
 	return sp
 }
 
@@ -164,15 +168,28 @@ func (sp *tripleSpace) build(v []int) (t triple, vs variantSpec, ok bool) {
 		rs := sp.repl[v[11]-1]
 		ER = rs.b
 		rEff = big.NewInt(0)
-		if v[4] != 0 || v[5] != 0 || v[6] != 0 {
+		if v[4] != 0 || v[5] != 0 || v[6] != 0 || v[12] != 0 {
 			return t, vs, false
 		}
 	} else {
+		if v[12] > 0 && v[6] != 0 {
+			return t, vs, false
+		}
 		enc := ref.Encodings(ptOf(r, v[5]))
 		if v[6] >= len(enc) {
 			return t, vs, false
 		}
 		ER = enc[v[6]]
+		if v[12] > 0 {
+			// S below is computed for the point P = [r]B + T_j; the signature carries a related point
+			x, y := ptOf(r, v[5]).Affine()
+			if v[12] == 1 {
+				x = new(big.Int).Mod(new(big.Int).Neg(x), ref.P)
+			} else {
+				y = new(big.Int).Mod(new(big.Int).Neg(y), ref.P)
+			}
+			ER = ref.FromAffine(x, y).Encode()
+		}
 	}
 	msg := msgOf(v[7]+1, vs)
 	h := ref.HashModL(ref.Dom2(vs.v, []byte(vs.ctx)), ER, EA, msg)
@@ -212,10 +229,13 @@ func (sp *tripleSpace) valid(v []int) bool {
 		return false
 	}
 	if v[11] > 0 {
-		if v[4] != 0 || v[5] != 0 || v[6] != 0 {
+		if v[4] != 0 || v[5] != 0 || v[6] != 0 || v[12] != 0 {
 			return false
 		}
 	} else if v[6] >= encCount(sp.kr[v[4]], v[5]) {
+		return false
+	}
+	if v[12] > 0 && v[6] != 0 {
 		return false
 	}
 	return true
